@@ -85,4 +85,10 @@ CHECKS["C05"] = {
   "note": "exact reals; kernels linear / polynomial by definition (rbf, sigmoid, cosine outside: transcendental); kernel ridge by closed form; verified-frame decompositions; one repaired defect (K_VV vs K_NN in score); held-out scoring with center=True is outside (K_VV cannot be centred by the fitted normaliser)",
   "technique": TECH,
 }
+CHECKS["C10"] = {
+  "text": "Ridge2FoldCV.fit/_2fold_cv/predict are executed on folds built from factors (X_i = Q_i diag(s_i) V^T, common right frame so that the fold SVDs and the full-data SVD are exact), with symbolic spectra, targets and alpha grid; cv_values_ are compared with explicit per-fold Tikhonov / cut-off least-squares solutions scored on the other fold with the metric formulas under sklearn's scorer calling convention, alpha_ must have the best value, coef_ must equal the regularised full-data solution with directions below the numerical rank excluded (division by a zero singular value is an event that must be unreachable), predict == X coef_^T.",
+  "design_ref": "DESIGN.md 2/C10",
+  "note": "exact reals; verified-frame SVD; scorers stubbed by formula and calling convention; scores named as atoms and unfolded for equality; two repaired defects (scorer argument order, rank count of the final solve)",
+  "technique": TECH,
+}
 NOT_APPLICABLE = {}
